@@ -347,7 +347,8 @@ func checkC08(c *Ctx) int {
 	small := lmm.NewGeom(c.Seed, true)
 	layouts := []layout{
 		{"small6/A", small, []uint64{1, 1, 2, 2, 3, 0}, c.pick(3, 4)},
-		{"small6/B", small, []uint64{7, 7, 7, 4, 4, 9}, c.pick(2, 3)},
+		{"small6/B", small, []uint64{7, 7, 7, 4, 4, 9}, c.pick(1, 2)}, // with mutating voxel writes (fresh / present / zero label)
+		{"small6/C", small, []uint64{5, 5, 6, 6, 6, 2}, c.pick(2, 3)},
 	}
 	if c.thorough() {
 		big := lmm.NewGeom(c.Seed, false)
@@ -360,7 +361,7 @@ func checkC08(c *Ctx) int {
 	}
 	var states, trans, edges, restarts int64
 	for _, lo := range layouts {
-		gr, s, t := lmExplore(c, lo.g, lo.initSV, lo.ops, lo.ops+1, nil, nil, lo.name != "small6/A")
+		gr, s, t := lmExplore(c, lo.g, lo.initSV, lo.ops, lo.ops+1, nil, nil, lo.name == "small6/B")
 		states += s
 		trans += t
 		nw := 12
